@@ -14,6 +14,11 @@ CLAIMED = {
    note="Hand model Tape.v/Jacobian.v; rounding not modelled (test data dyadic, results exact); the multi-lane zero shortcut with non-finite multipliers is outside the ring model; negative Matrix strides as target outside the claim.",
    technique="Coq proof (adjoint identity by induction over the tape; permutation-of-canonical-writes for each driver) + differential correspondence of extracted model vs Stack",
    design="DESIGN.md §4 C02"),
+ "C06": dict(
+   text="Machine-checked proofs (Coq, axiom-free) about the (base, extents, strides) model of Array views: slicing with any mix of scalar indices, ranges, positive/negative strides and `end` arithmetic satisfies addr(slice v l) j = addr v (denoted index) for all j; the extent formula with C++ truncating division is exactly the number of terms of the arithmetic progression for both stride signs; rank = number of range arguments; and for every finite composition of operator(), operator[], T, permute, diag_vector(k), submatrix_on_diagonal, reshape and soft_link with admissible arguments (any rank): address identity with the composed index map, denoted indices inside the parent's extents, distinct indices denote distinct parent cells, all cells inside the parent's memory; the bounds-checked slicing raises exactly when a scalar index or range end-point is outside 0..n-1. Tie: the extracted model and an independent nested-list denotation are compared with the real Array class (default and ADEPT_BOUNDS_CHECKING builds) on exhaustive small slices and random compositions, including write-through of every element.",
+   note="Hand model View.v; harness covers ranks 1-4 (theorems cover any rank); index vectors (IndexedArray) are covered under C04/C03, not here; stride 0 and ranges pointing away from `end` are inadmissible arguments and excluded.",
+   technique="Coq proof of view algebra (affine address identity, AP count with truncating division, composition by induction) + differential correspondence + independent denotational oracle",
+   design="DESIGN.md §4 C06"),
  "C09": dict(
    text="Machine-checked proof (Coq, axiom-free) about the recording-buffer model: from ANY initial capacity k>=1, every trace of recording events that respects the reservation discipline (check_space(n) licenses n unchecked pushes) stores nothing at or beyond the capacities the code computes (invariant n_ops < capacity through both growth formulas), push_lhs/push_lhs_range never overflow, what is recorded is independent of the capacities and preallocate_* change capacities only; a site pushing more than reserved+1 provably overflows for k=R+1. Generated obligations: tools/gen_sites.py re-reads every check_space call of the current sources and the theorem C09_every_site_reserves_enough re-proves demand <= reservation for each. Tie: instrumented build (guarded hook) under ASan over a catalogue of 40+ recording statement kinds x sizes x spare-slot counts x tiny initial capacities: hook trace = model trace, every observed trace satisfies the discipline hypothesis, derivatives identical across capacities.",
    note="Demand column of the site table is hand-read (checked dynamically against every observed trace); translator grammar trusted; real memory safety of the stores rests on ASan + the capacity hook; complex arrays and ADEPT_STACK_STORAGE_STL out of scope.",
